@@ -1,0 +1,15 @@
+//go:build verif
+
+package remote
+
+import "time"
+
+// Verification hook (build tag "verif" only) for property C12: let time pass for the connectivity check of a blob by
+// moving its lastCheck into the past (ValidInterval is measured from lastCheck). No behaviour change.
+func VerifAgeLastCheckC12(b Blob, d time.Duration) {
+	if bb, ok := b.(*blob); ok {
+		bb.lastCheckMu.Lock()
+		bb.lastCheck = bb.lastCheck.Add(-d)
+		bb.lastCheckMu.Unlock()
+	}
+}
